@@ -95,7 +95,11 @@ class DefGen:
         out = []
         for _ in range(n):
             style = r.choice(["///", "///", "attr"])
-            out.append((style, r.choice(DOC_POOL)))
+            text = r.choice(DOC_POOL)
+            if style == "attr" and r.random() < 0.15:
+                # one doc attribute whose string spans two lines stays one entry
+                text = r.choice([" first\nsecond", "a\n b", "\n"])
+            out.append((style, text))
         return out
 
     @staticmethod
@@ -289,9 +293,12 @@ class DefGen:
             if use_discr and r.random() < 0.7:
                 cand = r.choice([next_discr, next_discr + r.choice([0, 1, 5]), r.randrange(0, 200)])
                 v["discr"] = cand
-            if r.random() < 0.3:
+            if r.random() < (0.6 if v["skip"] else 0.3):
+                # (skipped variants often carry an index too: two separate codec attributes on one variant, in either order)
                 v["index"] = r.choice([0, 1, 2, 3, 7, 42, 200, 255, pos])
                 self.stat("codec_index")
+                if v["skip"]:
+                    self.stat("variant_skip_and_index")
             if v["discr"] is not None:
                 self.stat("discriminant")
             # rust discriminant sequence must stay unique and increasing-implicit
